@@ -83,9 +83,9 @@ def tlc_env(extra=None):
     return e
 
 
-def run_tlc(cwd, module, cfg, workers, timeout, env=None, cont=False, tlines=None, simulate=None, heap="8g"):
+def run_tlc(cwd, module, cfg, workers, timeout, env=None, cont=False, tlines=None, simulate=None, heap="8g", tag=""):
     """run TLC; lines starting with <<"T", are decoded and written to `tlines` (ndjson); returns stats + other tagged lines"""
-    meta = os.path.join(cwd, "meta_" + os.path.splitext(os.path.basename(cfg))[0])
+    meta = os.path.join(cwd, "meta_" + os.path.splitext(os.path.basename(cfg))[0] + tag)
     shutil.rmtree(meta, ignore_errors=True)
     cmd = ["timeout", str(timeout), "java", "-Xmx" + heap, "-XX:+UseParallelGC", "-cp", "/opt/veriftools/tla/tla2tools.jar:/opt/veriftools/tla/CommunityModules-deps.jar",
            "tlc2.TLC"]
@@ -141,9 +141,23 @@ def run_tlc(cwd, module, cfg, workers, timeout, env=None, cont=False, tlines=Non
         tf.close()
     out["rc"] = p.returncode
     out["wall"] = time.time() - t0
+    try:
+        with open(os.path.join(cwd, os.path.splitext(os.path.basename(cfg))[0] + tag + ".log"), "w") as lf:
+            lf.write("\n".join(out["log"]) + "\n" + "\n".join(out["tagged"][:200]))
+    except Exception:
+        pass
     if p.returncode == 124:
         out["errors"].append("TLC timeout")
     return out
+
+
+def run_tlc_retry(*a, **kw):
+    """TLC occasionally ends at once with a single state and exit code 0 when started right after another instance; retry once"""
+    r = run_tlc(*a, **kw)
+    if r["rc"] == 0 and r["generated"] < 2 and not r["errors"]:
+        log("[tlc] suspicious empty run, retrying")
+        r = run_tlc(*a, **kw)
+    return r
 
 
 def decode_tagged(line):
@@ -228,7 +242,7 @@ def e1_run(tier):
         os.makedirs(sdir)
         # (1) design check: intended design (KF = {}) satisfies every property predicate in every reachable state
         open(os.path.join(spec, name + "_design.cfg"), "w").write(scenario_cfg(sc, False, True, [], depth))
-        d = run_tlc(spec, "MC_fixtures.tla", name + "_design.cfg", 16, 3000 if tier == "thorough" else 900, cont=True) if CODE_KF else \
+        d = run_tlc_retry(spec, "MC_fixtures.tla", name + "_design.cfg", 16, 3000 if tier == "thorough" else 900, cont=True) if CODE_KF else \
             {"tagged": [], "rc": 0, "errors": [], "distinct": 0, "generated": 0, "wall": 0}
         fails = {}
         for tl in d["tagged"]:
@@ -245,9 +259,11 @@ def e1_run(tier):
         #     witness history is executed on the real library and judged on the real observations (step 4)
         open(os.path.join(spec, name + "_gen.cfg"), "w").write(scenario_cfg(sc, True, True, CODE_KF, depth))
         trans = os.path.join(sdir, "trans.ndjson")
-        g = run_tlc(spec, "MC_fixtures.tla", name + "_gen.cfg", 16, 3000 if tier == "thorough" else 900, tlines=trans, cont=True)
+        g = run_tlc_retry(spec, "MC_fixtures.tla", name + "_gen.cfg", 16, 3000 if tier == "thorough" else 900, tlines=trans, cont=True)
         if g["rc"] not in (0, 12, 13, 14) or any("Attempted" in e or "timeout" in e for e in g["errors"]):
             result["tool_errors"].append("gen TLC %s: rc=%s %s" % (name, g["rc"], g["errors"][:3]))
+        if g["ntrans"] < 10 or g["distinct"] < 2:
+            result["tool_errors"].append("vacuous: gen TLC %s produced %d transitions" % (name, g["ntrans"]))
         result["states"] += g["distinct"]
         result["transitions"] += g["generated"]
         cands = {}
@@ -259,36 +275,30 @@ def e1_run(tier):
             elif tag == "APROPFAIL":
                 w = json.loads(rest[1])
                 cands.setdefault(rest[0], []).append(w["h"] + [w["a"]])
-        witness = []
+        import random
+        rnd = random.Random(seed())
         ncand = 0
-        for pred, hs in cands.items():
-            keys = set(json.dumps(h, sort_keys=True) for h in hs)
-            ncand += len(keys)
-            # keep histories none of whose proper prefixes fails the same predicate (first falsifying step)
-            minimal = [h for h in hs if not any(json.dumps(h[:k], sort_keys=True) in keys for k in range(0, len(h)))]
-            seenk = set()
-            for h in minimal:
-                k = json.dumps(h, sort_keys=True)
-                if k not in seenk:
-                    seenk.add(k)
-                    witness.append(h)
-        result["model_candidates"] = result.get("model_candidates", 0) + ncand
+        cap = 40 if tier == "quick" else 400
         wk = set()
         wfile = os.path.join(sdir, "witness_in.ndjson")
         with open(wfile, "w") as f:
-            for h in witness:
-                k = json.dumps(h, sort_keys=True)
-                if k in wk:
-                    continue
-                wk.add(k)
-                if len(wk) > (400 if tier == "quick" else 4000):
-                    break
-                f.write(json.dumps({"fix": g["fix"] or [], "h": h}) + "\n")
+            for pred, hs in sorted(cands.items()):
+                keys = set(json.dumps(h, sort_keys=True) for h in hs)
+                ncand += len(keys)
+                # keep histories none of whose proper prefixes fails the same predicate (first falsifying step)
+                minimal = sorted(k for k in keys if not any(json.dumps(json.loads(k)[:j], sort_keys=True) in keys for j in range(0, len(json.loads(k)))))
+                rnd.shuffle(minimal)
+                for k in minimal[:cap]:
+                    if k in wk:
+                        continue
+                    wk.add(k)
+                    f.write(json.dumps({"fix": g["fix"] or [], "h": json.loads(k)}) + "\n")
+        result["model_candidates"] = result.get("model_candidates", 0) + ncand
         sh([VH, "histories", "--in", wfile, "--out", os.path.join(sdir, "witness.ndjson"), "--models", "2", "--names", ",".join(sc["names"])] + (["--ser"] if sc.get("ser") else []), timeout=3600)
         # (3) replay on the real library
         json.dump(g["fix"] or [], open(os.path.join(sdir, "fix.json"), "w"))
         r = sh([VH, "replay", "--in", trans, "--fix", os.path.join(sdir, "fix.json"), "--out", sdir, "--models", "2", "--seed", str(seed()),
-                "--sample", "300" if tier == "quick" else "3000", "--names", ",".join(sc["names"])] + (["--ser"] if sc.get("ser") else []), timeout=7200)
+                "--sample", "150" if tier == "quick" else "3000", "--names", ",".join(sc["names"])] + (["--ser"] if sc.get("ser") else []), timeout=7200)
         rs = json.loads(r.stdout.strip().splitlines()[-1])
         result["replayed"] += rs["transitions"]
         result["matched"] += rs["matched"]
@@ -298,8 +308,11 @@ def e1_run(tier):
         result["scenarios"][name] = {"design": {k: d[k] for k in ("generated", "distinct", "wall", "rc")},
                                      "gen": {k: g[k] for k in ("generated", "distinct", "wall", "rc", "ntrans")}, "replay": rs}
         # (4) TLC evaluates the property predicates on real observations: all mismatching steps + a sample of matching ones
-        for tr in ("mismatch.ndjson", "witness.ndjson", "sample.ndjson"):
-            v = validate_trace(spec, os.path.join(sdir, tr), name + "/" + tr)
+        from concurrent.futures import ThreadPoolExecutor
+        trs = ("mismatch.ndjson", "witness.ndjson", "sample.ndjson")
+        with ThreadPoolExecutor(max_workers=3) as ex:
+            vs = list(ex.map(lambda tr: validate_trace(spec, os.path.join(sdir, tr), name + "/" + tr), trs))
+        for v in vs:
             result["validated_steps"] += v["steps"]
             result["verdicts"] += v["verdicts"]
             result["drift"] += v["drift"]
@@ -328,7 +341,8 @@ def validate_trace(spec, trace, label, nm=2):
     lines = open(trace).read().splitlines()
     out["steps"] = len(lines)
     cfg = "trace.cfg"
-    t = run_tlc(spec, "ArxmlTrace.tla", cfg, 1, 3600, env={"TRACE": trace, "JAVA_TOOL_OPTIONS": "-Xss1g -Dtlc2.tool.queue.IStateQueue=StateDeque"}, heap="12g")
+    t = run_tlc(spec, "ArxmlTrace.tla", cfg, 1, 3600, env={"TRACE": trace, "JAVA_TOOL_OPTIONS": "-Xss1g -Dtlc2.tool.queue.IStateQueue=StateDeque"}, heap="12g",
+                tag="_" + label.replace("/", "_").replace(".", "_"))
     consumed = not any(l.startswith('<<"NOTCONSUMED"') for l in t["tagged"]) and t["rc"] == 0
     if not consumed:
         out["tool_errors"].append("trace %s not consumed: rc=%s %s" % (label, t["rc"], (t["errors"] or t["log"][-3:])[:3]))
